@@ -74,7 +74,8 @@ def hierarchy_strategy():
                 assigns = draw(st.lists(st.sampled_from(ATTRS + ['x', 'y']), max_size=2, unique=True)) if kind == 'method' else []
                 # a method may first assign through another receiver (tmp.x = ...) before it assigns through self
                 foreign = kind == 'method' and bool(assigns) and draw(st.integers(0, 3)) == 0
-                members.append({'name': nm, 'kind': kind, 'assigns': assigns, 'foreign': foreign})
+                members.append({'name': nm, 'kind': kind, 'assigns': assigns, 'foreign': foreign,
+                                'unpack': draw(st.integers(0, 3)) if len(assigns) >= 2 else 0})
             if draw(st.integers(0, 3)) == 0:
                 # object-level special methods: builtin bases inherit them from object (which comes LAST in the MRO)
                 for nm in draw(st.lists(st.sampled_from(DUNDERS), min_size=1, max_size=2, unique=True)):
@@ -150,7 +151,14 @@ def render(h):
                 lines.append('    def %s(self):' % nm)
                 if mb.get('foreign'):
                     lines += ['        tmp = Desc(None)', '        tmp.other_%s = self' % nm]
-                for a in mb['assigns']:
+                if mb.get('unpack') and len(mb['assigns']) >= 2:
+                    # attribute targets inside an unpacking bind instance attributes like plain ones
+                    form = ['self.%s, self.%s = %d, %d', '[self.%s, self.%s] = [%d, %d]', 'self.%s, *self.%s = %d, %d'][mb['unpack'] - 1]
+                    lines.append('        ' + form % (mb['assigns'][0], mb['assigns'][1], ci, ci))
+                    rest = mb['assigns'][2:]
+                else:
+                    rest = mb['assigns']
+                for a in rest:
                     lines.append('        self.%s = %d' % (a, ci))
                 lines.append('        return None')
             elif k == 'property':
@@ -168,7 +176,9 @@ def render(h):
         if not files[m]:
             continue
         head = list(imports[m])
-        head.append('class Desc(object):\n    def __init__(self, f):\n        self.f = f\n    def __get__(self, obj, cls=None):\n        return self.f(obj)\n')
+        if any('Desc' in chunk for chunk in files[m]):
+            # only where it is used: a module without any attribute assignment of its own is a case of its own
+            head.append('class Desc(object):\n    def __init__(self, f):\n        self.f = f\n    def __get__(self, obj, cls=None):\n        return self.f(obj)\n')
         out[m.replace('.', '/') + '.py'] = '\n'.join(head) + '\n' + '\n\n'.join(files[m]) + '\n'
     if any(k.startswith('p/') for k in out):
         out['p/__init__.py'] = ''
@@ -292,10 +302,11 @@ def positions(files):
                         col = lines[st.lineno - 1].index('def ') + 4
                         defs[(rel, node.name, st.name)] = (st.lineno, col)
                         for n in ast.walk(st):
-                            if isinstance(n, ast.Assign) and isinstance(n.targets[0], ast.Attribute) \
-                                    and isinstance(n.targets[0].value, ast.Name) and n.targets[0].value.id == 'self':
-                                a = n.targets[0]
-                                assigns.setdefault((rel, node.name, st.name), []).append((a.attr, (a.lineno, a.col_offset)))
+                            if isinstance(n, ast.Assign):
+                                for a in ast.walk(n.targets[0]):
+                                    if isinstance(a, ast.Attribute) and isinstance(a.ctx, ast.Store) \
+                                            and isinstance(a.value, ast.Name) and a.value.id == 'self':
+                                        assigns.setdefault((rel, node.name, st.name), []).append((a.attr, (a.lineno, a.col_offset)))
     return defs, assigns
 
 
